@@ -559,6 +559,39 @@ Fixpoint hc_total (lrs : list lr) (addrs : list Z) (acc : Z) : Z :=
   | _, _ => acc
   end.
 
+(* ============================== the dispatcher ============================== *)
+(* tensor_allocation.allocate(..., tensor_allocator, cpu_tensor_alignment, hillclimb_max_iterations) on a
+   prepared live-range graph with one tensor per range and no tensors declared equivalent: LinearAlloc is
+   called with the requested alignment as its granularity; Greedy and HillClimb take each range's own
+   alignment (cpu_tensor_alignment only reaches their verify_* calls); HillClimb gets arch.mem_type_size as
+   its memory limit and reports the total of hillclimb_allocate_live_ranges.  TensorAllocator:
+   LinearAlloc = 1, Greedy = 2, HillClimb = 3. *)
+Fixpoint lins_of (lrs : list lr) (i : Z) : list lin :=
+  match lrs with
+  | [] => []
+  | r :: rest => mkLin (lr_size r) 0 0 0 i :: lins_of rest (i + 1)
+  end.
+
+Inductive alloc_result : Type :=
+  | ByIndex (r : res (list Z * Z))          (* addresses in input order, total_sz: LinearAlloc, HillClimb *)
+  | InOrder (out : list (lr * Z)) (m : Z)   (* (range, address) in Greedy's processing order, total_sz *)
+  | BadAllocator.                           (* assert 0 *)
+
+Definition allocate (S : Type) (next : S -> Z * S) (tensor_allocator cpu_tensor_alignment : Z) (lrs : list lr)
+           (hillclimb_max_iterations : option Z) (mem_size : Z) (s : S) : alloc_result :=
+  match lrs with
+  | [] => ByIndex (Ok ([], 0))               (* if lrs.ranges: ... else total_sz = 0 *)
+  | _ =>
+    if tensor_allocator =? 2 then let '(out, m) := greedy lrs in InOrder out m
+    else if tensor_allocator =? 1 then ByIndex (linear cpu_tensor_alignment (lins_of lrs 0))
+    else if tensor_allocator =? 3 then
+      ByIndex (match hillclimb S next lrs hillclimb_max_iterations mem_size s with
+               | Ok (addrs, _, _, _) => Ok (addrs, hc_total lrs addrs 0)
+               | Err c => Err c
+               end)
+    else BadAllocator
+  end.
+
 (* the oracle stream used by the extracted program: a finite list, 0 after its end *)
 Definition next_list (l : list Z) : Z * list Z :=
   match l with [] => (0, []) | v :: r => (v, r) end.
